@@ -836,9 +836,76 @@ def special_grid(rng):
     return cases
 
 
+def fragment(rng, case):
+    """the same case with the reader's peer delivering the bytes in pieces: `reader e` -> `readerf e cut...`; a cut is
+    used modulo (stream length + 1), so large random numbers are uniform over the stream (most fall inside a value)"""
+    out = []
+    for l in case:
+        if l.startswith("reader "):
+            k = rng.choice([1, 1, 2, 3, 5, 8, 16, 40])
+            l = "readerf " + l[7:] + "".join(" %d" % rng.randrange(0, 10 ** 9) for _ in range(k))
+        out.append(l)
+    return out
+
+
+def fragment_grid(rng):
+    """Socket readers fed in pieces (seed round 4): every multi-byte type x every order x EVERY cut offset inside the
+    value (scalar `r`, element of `ra`, element of `rd`), two and three cuts inside one value, a cut in every value of
+    a mixed sequence, cuts on value boundaries only, a cut inside the length prefix / the body of `rs`, `rb`/`skip` over cuts"""
+    cases = []
+    multi = [t for t in TYPES if WIDTH[t] > 1]
+    for ty in multi:
+        w = WIDTH[ty]
+        for o in ["def"] + ORDERS:
+            v = int.from_bytes(bytes(range(0x81, 0x81 + w)), "big")
+            for cut in range(1, w):
+                # one leading byte, so the value sits at offset 1
+                cases.append(["new sock " + o, "w u8 5a", "w %s %s" % (ty, hv(ty, v)), "w u8 a5",
+                              "readerf %s %d" % (o, 1 + cut), "r u8", "r " + ty, "r u8", "r u8"])
+            n = 3
+            arr = arr_line(rng, ty, n)
+            for cut in sorted(set([1, w - 1, w + 1, 2 * w - 1, 2 * w + w // 2, 3 * w - 1])):
+                cases.append(["new sock " + o, arr, "w u8 a5", "readerf %s %d" % (o, cut), "ra %s %d" % (ty, n), "r u8", "r u8"])
+            cases.append(["new sock " + o, "wd stack " + arr[3:], "readerf %s %d %d" % (o, w // 2, 2 * w + 1), "rd queue %s %d" % (ty, n), "r u8"])
+            if w >= 4:
+                # every byte of the value in its own piece; two cuts in one value
+                cases.append(["new sock " + o, "w %s %s" % (ty, hv(ty, v)), "readerf " + o + "".join(" %d" % i for i in range(1, w)), "r " + ty, "r u8"])
+                cases.append(["new sock " + o, "w %s %s" % (ty, hv(ty, v)), "w %s %s" % (ty, hv(ty, v ^ 0x55)), "readerf %s 1 %d %d" % (o, w - 1, w + 2), "r " + ty, "r " + ty, "r u8"])
+    for o in ["def"] + ORDERS:
+        for rep in range(6):
+            # a mixed sequence with one cut inside every value / only on the boundaries / order switches between
+            wl, rl, cuts_in, cuts_on, pos = ["new sock " + o], [], [], [], 0
+            for _ in range(rng.randrange(2, 12)):
+                if rng.random() < 0.25:
+                    o2 = rng.choice(ORDERS)
+                    wl.append("endian " + o2)
+                    rl.append("rendian " + o2)
+                ty = rng.choice(multi)
+                w = WIDTH[ty]
+                wl.append("w %s %s" % (ty, hv(ty, rvalue(rng, ty))))
+                rl.append("r " + ty)
+                cuts_in.append(pos + rng.randrange(1, w))
+                cuts_on.append(pos)
+                pos += w
+            cuts = cuts_in if rep % 3 == 0 else cuts_on if rep % 3 == 1 else cuts_in + cuts_on
+            cases.append(wl + ["readerf " + o + "".join(" %d" % c for c in cuts)] + rl + ["r u8"])
+        for cut in (1, 3, 4, 5, 8, 9):
+            cases.append(["new sock " + o, "w i32 00000005", "ws 6162006364", "w u16 0102", "readerf %s %d" % (o, cut), "rs", "state", "r u16", "r u8"])
+            cases.append(["new sock " + o, "wb 000102030405060708090a0b", "w u32 01020304", "readerf %s %d %d" % (o, cut, cut + 5), "rb 6", "skip 6", "r u32", "state", "r u8"])
+    return cases
+
+
 def gen(rng, tier):
     quick = tier == "quick"
     cases = []
+    cases += fragment_grid(rng)
+    for i in range(150 if quick else 1500):
+        cases.append(fragment(rng, roundtrip_case(rng, "sock", rng.randrange(1, 40))))
+    for i in range(40 if quick else 400):
+        cases.append(fragment(rng, cross_case(rng, "sock")))
+    for kind in ("sb", "file"):
+        for i in range(5 if quick else 50):
+            cases.append(fragment(rng, roundtrip_case(rng, kind, rng.randrange(1, 20))))   # the op is `reader` for the other classes
     cases += scalar_grid()
     cases += reuse_grid(rng)
     cases += special_grid(rng)
@@ -906,7 +973,8 @@ def distribution(cases):
          "writes_by_order_in_force": {}, "reads_by_order_in_force": {}, "order_switches_mid_stream": 0, "nan_values": 0,
          "min_max_int_values": 0, "values_per_case_hist": {}, "max_values_in_a_case": 0,
          "array_variable_writes": {}, "array_rewrites_same_object": 0, "array_rewrites_after_order_switch": 0,
-         "string_array_writes_by_order": {}, "c_array_writes_by_order": {}, "array_derived_object_writes": 0, "self_writes": 0, "socket_state_observations": 0, "zero_length_socket_reads": 0, "array_reads_by_order_in_force": {}}
+         "string_array_writes_by_order": {}, "c_array_writes_by_order": {}, "array_derived_object_writes": 0, "self_writes": 0, "socket_state_observations": 0, "zero_length_socket_reads": 0, "array_reads_by_order_in_force": {},
+         "fragmented_socket_readers_by_order": {}, "fragment_cuts_per_reader_hist": {}}
     for c in cases:
         kind = None
         we = re_ = None
@@ -924,8 +992,12 @@ def distribution(cases):
                 we = t[1]
                 if nvals:
                     d["order_switches_mid_stream"] += 1
-            elif op == "reader":
+            elif op in ("reader", "readerf"):
                 re_ = t[1] if t[1] != "def" else ("little" if kind == "sb" else "native")
+                if op == "readerf" and kind == "sock":
+                    d["fragmented_socket_readers_by_order"][re_] = d["fragmented_socket_readers_by_order"].get(re_, 0) + 1
+                    b = str(len(t) - 2) if len(t) - 2 <= 3 else "4-8" if len(t) - 2 <= 8 else ">8"
+                    d["fragment_cuts_per_reader_hist"][b] = d["fragment_cuts_per_reader_hist"].get(b, 0) + 1
             elif op == "rendian":
                 re_ = t[1]
             elif op == "w":
@@ -1142,7 +1214,7 @@ def _reference(line):
                 b = unhex(t[1])
             s["out"] += b
             return hexs(b)
-        if op == "reader":
+        if op in ("reader", "readerf"):     # the pieces in which a socket's bytes arrive do not change what is read
             if s["reading"]:
                 return "closed"
             s["reading"] = True
